@@ -46,6 +46,19 @@ AddedAtThreshold == (~collide /\ obs # <<>>) =>
    LET x == obs[Len(obs)] IN
    (trueCount[x] = Max2(minc, 1) => x \in dict) /\ (trueCount[x] < minc => x \notin dict)
 
+\* Bridge to apalache/KmerFilterInd.tla (whose inductive invariant is discharged for unbounded counters): that module's
+\* Observe - total count function, 0 = no entry - computes on every reachable state the same next state and the same "added
+\* now" as FilterStep, for every hash.
+SameStep == \A h \in {"h1", "h2", "h3"} :
+   LET r == FilterStep(f, h, minc)
+       c0 == CntOf(f, h)
+       indBloom == IF minc <= 1 THEN f.bloom ELSE f.bloom \cup {h}
+       indCnt == IF minc <= 2 \/ h \notin f.bloom THEN c0 ELSE (IF c0 > 0 THEN c0 + 1 ELSE 2)
+       indPass == IF minc <= 1 THEN TRUE ELSE IF h \notin f.bloom THEN FALSE
+                  ELSE IF minc = 2 THEN TRUE ELSE indCnt = minc
+   IN r.f.bloom = indBloom /\ CntOf(r.f, h) = indCnt /\ r.pass = indPass
+      /\ \A g \in {"h1", "h2", "h3"} \ {h} : CntOf(r.f, g) = CntOf(f, g)
+
 Emit == (EmitReplay /\ ~collide /\ Len(obs) = MaxObs) =>
    PrintT(<<"REPLAY", ToJson([kind |-> "filter", minc |-> minc, obs |-> obs, ords |-> passes])>>)
 =============================================================================
